@@ -390,6 +390,11 @@ where
     }
     let items = &items;
     let work = &work;
+    // global wall-clock budget of the engine (set by the driver per tier): when it is used up no further item is
+    // started and the report says so - findings made so far are still reported
+    let budget = std::env::var("VERIF_ENGINE_SECONDS").ok().and_then(|s| s.parse::<u64>().ok()).unwrap_or(u64::MAX);
+    let t_start = Instant::now();
+    let skipped = Mutex::new(0usize);
     std::thread::scope(|s| {
         for _ in 0..threads.max(1).min(items.len().max(1)) {
             s.spawn(|| loop {
@@ -401,6 +406,10 @@ where
                 };
                 if i >= items.len() {
                     break;
+                }
+                if t_start.elapsed().as_secs() >= budget {
+                    *skipped.lock().unwrap() += 1;
+                    continue;
                 }
                 with_ctx(|c: &mut Ctx| {
                     c.session = None;
@@ -426,5 +435,10 @@ where
             });
         }
     });
-    total.into_inner().unwrap()
+    let mut total = total.into_inner().unwrap();
+    let sk = skipped.into_inner().unwrap();
+    if sk > 0 {
+        total.errors.push(format!("engine time budget of {budget} s exhausted: {sk} of {} configurations were not started", items.len()));
+    }
+    total
 }
